@@ -30,6 +30,11 @@ EXPLANATION = __doc__
 EXECUTES_MODULE_CODE = {"exec_module", "load_module", "_load_module_shim", "exec", "eval", "import_module", "__import__", "_exec", "_load"}
 CACHE_IO = {"get_code"}
 ALLOWED_OVERRIDES = {"__init__", "source_to_code", "exec_module", "get_code"}
+# methods of importlib's loader protocol whose override would take part in locating / validating /
+# loading the module (anything else defined on the loader is a private helper of jaxtyping's own)
+PROTOCOL_METHODS = {"get_data", "set_data", "path_stats", "path_mtime", "_cache_bytecode", "get_filename", "get_source", "is_package",
+                    "load_module", "create_module", "get_resource_reader", "contents", "is_resource", "open_resource", "resource_path",
+                    "find_spec", "find_module", "invalidate_caches", "_check_name"}
 
 
 def run(ctx: RuleContext):
@@ -92,7 +97,8 @@ def check_tag(ctx):
     n = 0
     for name, meth in ld.methods.items():
         for c in m.calls_in(meth):
-            if norm(c.func) in ("ft.partial", "functools.partial", "partial") and c.args and norm(c.args[0]) == "_optimized_cache_from_source":
+            if norm(c.func) in ("ft.partial", "functools.partial", "partial") and c.args and (
+                    norm(c.args[0]) == "_optimized_cache_from_source" or m.resolve_expr_static(meth, c.args[0]) is f):
                 n += 1
                 ctx.saw(meth)
                 want = f"{meth.params[0]}._typechecker.get_hash()"
@@ -235,6 +241,12 @@ def check_patch_extent(ctx):
                 if not isinstance(ce, ast.Call):
                     continue
                 rt = m.resolve_call(meth, ce)
+                if rt.kind == "func" and rt.target.cls is ld:
+                    # a helper method of the loader that returns the patch object
+                    rets = [x.value for x in walk_scope(rt.target.node) if isinstance(x, ast.Return)]
+                    if len(rets) == 1 and isinstance(rets[0], ast.Call) and m.resolve_call(rt.target, rets[0]).kind == "ext" and m.resolve_call(rt.target, rets[0]).target.endswith("mock.patch"):
+                        ce = rets[0]
+                        rt = m.resolve_call(rt.target, ce)
                 is_mock = rt.kind == "ext" and rt.target.endswith("mock.patch")
                 is_helper = rt.kind == "func" and rt.target.qualname in helpers
                 if not (is_mock or is_helper):
@@ -295,11 +307,13 @@ def check_overrides(ctx):
     if "importlib.machinery.SourceFileLoader" not in bases:
         ctx.bad("C18.4", (ld.file, ld.qualname), ld.node, f"_JaxtypingLoader derives from {bases}, not SourceFileLoader", construct="loader base class")
     for name, meth in sorted(ld.methods.items()):
-        if name not in ALLOWED_OVERRIDES:
+        if name in PROTOCOL_METHODS:
             ctx.bad("C18.4", meth, meth.node, f"the loader overrides `{name}`, which takes part in importlib's cache validation / loading protocol",
                     construct=f"override {name}")
-        else:
+        elif name in ALLOWED_OVERRIDES:
             ctx.ok("C18.4", meth.qualname, f"override of `{name}` is outside the stat/validation protocol")
+        else:
+            ctx.ok("C18.4", meth.qualname, f"`{name}` is a private helper (not part of importlib's loader protocol)")
         if name in ("get_code", "exec_module"):
             # must delegate to super() with its own arguments and return the result
             sup = [c for c in m.calls_in(meth) if isinstance(c.func, ast.Attribute) and c.func.attr == name and isinstance(c.func.value, ast.Call)
